@@ -42,7 +42,7 @@ func tokenFor(n *vnode.Node, t int) types.ZenonTokenStandard {
 		}
 		return types.ZeroTokenStandard
 	}
-	return types.ParseZTSPanic("zts1qanamzukd2v7al7h3zf3rh")
+	return types.NewZenonTokenStandard([]byte("a token nobody ever issued"))
 }
 
 // amountFor: V >= 0 literal; -1 the whole (pool-view) balance; -2 balance+1.
